@@ -4,7 +4,7 @@
    IU/RoundTrip.v proves join(split(I)) = I in the model.  Partial: the identity of an empty rewrite through apply() and the
    alignment of blocks after a rewrite are decided on the implementation by harness/c10.py. *)
 From Coq Require Import ZArith List Bool Arith.
-From GR Require Import Base.Result IR.State IU.Model IU.Proofs IU.RoundTrip.
+From GR Require Import Base.Result IR.State IU.Model IU.Proofs IU.RoundTrip IU.Groups.
 Import ListNotations.
 Open Scope Z_scope.
 
@@ -75,6 +75,26 @@ Theorem C10_join_split_is_identity :
     exists r, join_byte_intervals nop align next (split_byte_interval iv) = Ok r /\ same_ival r iv (iv_blocks iv).
 Proof. exact join_split_is_identity. Qed.
 
+(* split_byte_interval's grouping (blocks sorted by offset): every group spans its blocks, consecutive groups do not touch each
+   other's bytes -- so blocks that end up in different intervals share no byte *)
+Theorem C10_split_groups_are_disjoint : forall iv,
+  mono 0 (map ib_off (iv_blocks iv)) -> (forall b, In b (iv_blocks iv) -> 0 <= ib_size b) ->
+  Forall covers (group_blocks (iv_blocks iv) []) /\ separated (group_blocks (iv_blocks iv) []).
+Proof. exact split_groups_are_disjoint. Qed.
+Theorem C10_blocks_of_different_intervals_share_no_byte : forall gs, Forall covers gs -> separated gs ->
+  forall l1 g1 l2 g2 l3 b1 b2, gs = l1 ++ g1 :: l2 ++ g2 :: l3 -> In b1 (gblocks g1) -> In b2 (gblocks g2) ->
+  (forall g, In g gs -> gbegin g <= gend g) -> b_end b1 <= ib_off b2.
+Proof. exact groups_share_no_byte. Qed.
+
+(* an empty rewrite (every interval split, nothing modified, every partition joined again) gives every such interval back *)
+Theorem C10_empty_rewrite_is_the_identity :
+  forall nop align next ivs,
+    (forall iv, In iv ivs ->
+       Z.of_nat (length (iv_contents iv)) = iv_size iv /\ NoDup (map fst (iv_symex iv)) /\ Forall (fun m => NoDup (map fst m)) (iv_tabs iv) /\
+       wf_blocks iv /\ (forall b, In b (iv_blocks iv) -> holds iv align b)) ->
+    Forall2 (fun iv r => exists j, r = Ok j /\ same_ival j iv (iv_blocks iv)) ivs (noop_rewrite nop align next ivs).
+Proof. exact noop_rewrite_is_identity. Qed.
+
 Example C10_round_trip_hypotheses_hold :
   let iv := mk_ival 4096 6 [1; 2; 3; 4; 5; 6] [mk_iblk 0 0 2 true; mk_iblk 1 2 3 true; mk_iblk 2 5 1 false] [(3, 7)] [[]; []; []] in
   Z.of_nat (length (iv_contents iv)) = iv_size iv /\ NoDup (map fst (iv_symex iv)) /\ Forall (fun m => NoDup (map fst m)) (iv_tabs iv) /\
@@ -106,3 +126,20 @@ Example C10_nonvacuous :
   | Err _ => False
   end.
 Proof. vm_compute. repeat split. Qed.
+
+(* "Alignment requirements of blocks a patch adds hold after the rewrite" is FALSE of the faithful model when the aligned block is not
+   the first aligned block of its interval: join_byte_intervals pads in front of an interval for the first of its blocks that has an
+   alignment entry only.  Interval 1 (one byte at 4096) is followed by an interval with block 1 (offset 0, alignment 4) and block 2
+   (offset 1, alignment 4): block 1 is padded to 4100, block 2 ends up at 4101.
+   Replayed on the implementation: known finding C10-align-directive-inside-a-patch. *)
+Theorem C10_alignment_of_a_later_block_refuted :
+  exists nop align ivs j b a,
+    join_byte_intervals nop align 900 ivs = Ok j /\ In b (iv_blocks j) /\ aget (ib_id b) align = Some a /\
+    (iv_addr j + ib_off b) mod a <> 0.
+Proof.
+  exists [144], [(1%nat, 4); (2%nat, 4)],
+         [mk_ival 4096 1 [195] [mk_iblk 0 0 1 true] [] [[]; []; []];
+          mk_ival 4097 2 [144; 195] [mk_iblk 1 0 1 true; mk_iblk 2 1 1 true] [] [[]; []; []]].
+  eexists. exists (mk_iblk 2 5 1 true), 4.
+  split; [vm_compute; reflexivity|]. split; [cbn; tauto|]. split; [reflexivity|]. vm_compute. discriminate.
+Qed.
